@@ -17,7 +17,8 @@ CLAIMS = {
             "operation invariant 'raw storage holds a live payload iff the flag is set', no payload operation on empty "
             "storage, no construction over a live payload, destructor leaves nothing alive; comparisons dereference only "
             "engaged operands; storage alignment from clang's record layout; for payloads that are not trivially copyable the storage bytes "
-            "are used only as a placement-new address or through a cast to T* (never copied/swapped/filled as bytes); Any: holder dereferences dominated by a "
+            "are used only as a placement-new address or through a cast to T* (never copied/swapped/filled as bytes); a value assignment "
+            "does not read its by-reference argument after destroying the old payload; Any: holder dereferences dominated by a "
             "validity test, clone-on-copy, get<T> guarded by the exact-type test and otherwise throwing std::runtime_error. "
             "These are necessary structural conditions of the property decided on every path; value equality of what is "
             "returned is not decided.",
@@ -37,7 +38,8 @@ CLAIMS['C16'] = ('proof',
     "non-throwing exception specification on that call graph can reach a throw (no std::terminate instead of an error), "
     "and no mutable static/thread-local state read by the parser is left changed on a normal or exceptional exit (the result "
     "does not depend on earlier calls); pure std::string out-parameters are written on every successful return; begin/end "
-    "cursor pairs are ordered when used as ranges. Obligations = one per "
+    "cursor pairs are ordered when used as ranges; whitespace is excluded in front of the delimiters of a tag head / header "
+    "(a structural part of the faithfulness clause); writes through self-allocated buffers stay inside them. Obligations = one per "
     "analysed function and clause; all must be discharged. The faithfulness clause (returned tree equals the generating "
     "tree) is a value-level property and is not decided.",
     "Trusted: clang 14 CFG; isalpha/isdigit/isspace are false at NUL; the abstract transfer functions of the rule engine "
